@@ -5,6 +5,8 @@ import Proofs.C20Ctx
 import Proofs.C20Conc
 import Proofs.C20Read
 import Proofs.C20Copy
+import FqModel.CtxReadSeeker
+import Proofs.C20Rs
 /-!
   C20 — an interrupt cancels exactly the innermost running evaluation, safely.
 
@@ -525,5 +527,83 @@ example :
     (rrun [.ev (.push none), .read .ctxAware 0, .ev .interrupt]).results = [.cancelled] ∧
     -- a read on an already cancelled context does not block at all (callWait's first select)
     (rrun [.ev (.push none), .ev .interrupt, .read .ctxAware 0]).blocked = none := by decide
+
+/-! ### (g) "safely" for the input side: which goroutine may touch the underlying reader of a
+    ctxreadseeker, and when (FqModel/CtxReadSeeker.lean — small-step model of
+    internal/ctxreadseeker/ctxreadseeker.go: caller goroutine, loop goroutine, fnCh, waitCh, ctx.Done).
+    A schedule is any list of actions that are enabled one after the other: all interleavings of all
+    sequences of Read/Seek/Close calls with cancellations at any moment, unbounded. -/
+section ctxreadseeker
+
+/-- underlying_ops_exclusive: in EVERY state reachable by ANY schedule of the code as it is —
+    at most one operation (Read/Seek/Close) on the underlying reader is in progress and none ever began
+    while another was in progress; no operation is ever issued by the caller's goroutine (all belong to
+    the loop goroutine); the Close on cancellation happens at most once, and no operation begins after it
+    began; the underlying Close is called at most once more than Reader.Close was called.
+    (A state "during" a schedule is the end state of a prefix, which is itself a schedule.) -/
+theorem underlying_ops_exclusive (closer : Bool) (sched : List FqModel.CtxRS.Act) (s : FqModel.CtxRS.St) (es : List FqModel.CtxRS.Ev)
+    (h : FqModel.CtxRS.run .fixed sched (FqModel.CtxRS.init closer) = some (s, es)) :
+    s.mon.busy ≤ 1 ∧ s.mon.overlap = false ∧ s.callerOps = 0 ∧ s.cclose ≤ 1 ∧ s.late = false ∧
+    s.mon.closes ≤ s.mon.callsClose + 1 := by
+  have i := Proofs.C20Rs.run_inv (Proofs.C20Rs.inv_init closer) h
+  have hb := i.busy
+  have hc := i.ccl
+  have hcl := i.closes
+  refine ⟨?_, i.ov, i.cops, ?_, i.late, ?_⟩
+  · rw [hb]; cases s.loop <;> simp [Proofs.C20Rs.loopBusy]
+  · cases hl : s.loop <;> simp [hl, Proofs.C20Rs.loopCl] at hc <;> omega
+  · cases hl : s.loop <;> simp [hl, Proofs.C20Rs.loopCl] at hc <;> omega
+
+/-- the same on what can be OBSERVED (the events the underlying reader and the caller see, which is what
+    the harness records from the real code): the event sequence of every schedule passes the monitor
+    `Mon.ok` that the driver evaluates on the implementation's recorded events. -/
+theorem underlying_ops_exclusive_trace (closer : Bool) (sched : List FqModel.CtxRS.Act) (s : FqModel.CtxRS.St) (es : List FqModel.CtxRS.Ev)
+    (h : FqModel.CtxRS.run .fixed sched (FqModel.CtxRS.init closer) = some (s, es)) : (FqModel.CtxRS.monOf es).ok = true := by
+  have i := Proofs.C20Rs.run_inv (Proofs.C20Rs.inv_init closer) h
+  have hm : s.mon = FqModel.CtxRS.monOf es := Proofs.C20Rs.run_mon h
+  have hcl := (underlying_ops_exclusive closer sched s es h).2.2.2.2.2
+  rw [← hm]
+  simp [FqModel.CtxRS.Mon.ok, i.ov, i.bad, hcl]
+
+/-- the monitor in the model's state is the monitor over the emitted events, for every variant -/
+theorem monitor_is_trace_monitor (v : FqModel.CtxRS.Variant) (closer : Bool) (sched : List FqModel.CtxRS.Act) (s : FqModel.CtxRS.St) (es : List FqModel.CtxRS.Ev)
+    (h : FqModel.CtxRS.run v sched (FqModel.CtxRS.init closer) = some (s, es)) : s.mon = FqModel.CtxRS.monOf es := Proofs.C20Rs.run_mon h
+
+/-- cancel_returns_promptly: a caller waiting in either select of callWait on a cancelled context can
+    return the context error by a step of its own — whatever the loop goroutine is doing (in particular
+    while the underlying Read is still blocked), without touching the underlying reader. -/
+theorem cancel_returns_promptly (s : FqModel.CtxRS.St) (hc : s.cancelled = true) :
+    (s.caller = .sel2 → FqModel.CtxRS.step .fixed s .cSel2Cancel = some ({ s with caller := .ret false }, none)) ∧
+    (∀ k, s.caller = .sel1 k → FqModel.CtxRS.step .fixed s .cSel1Cancel = some ({ s with caller := .ret false }, none)) := by
+  constructor
+  · intro h; simp [FqModel.CtxRS.step, h, hc, FqModel.CtxRS.silent]
+  · intro k h; simp [FqModel.CtxRS.step, h, hc, FqModel.CtxRS.silent]
+
+/-- seeded_close_overlaps_read: the variant that closes from callWait on cancellation reaches a state with
+    the underlying Close (on the caller's goroutine) in progress while the Read on the loop goroutine
+    has not returned. -/
+theorem seeded_close_overlaps_read :
+    ∃ s es, FqModel.CtxRS.run .callerClose [.call .read, .send, .opBegin, .cancel, .cSel2Cancel, .cClBegin] (FqModel.CtxRS.init true) = some (s, es) ∧
+      s.mon.busy = 2 ∧ s.mon.overlap = true ∧ s.callerOps = 1 ∧ (FqModel.CtxRS.monOf es).ok = false := by
+  refine ⟨_, _, rfl, ?_⟩
+  decide
+
+/-- the same schedule up to the cancellation is a schedule of the code as it is, where the caller returns
+    and the reader stays with the loop goroutine -/
+example : ∃ s es, FqModel.CtxRS.run .fixed [.call .read, .send, .opBegin, .cancel, .cSel2Cancel, .ret, .opEnd] (FqModel.CtxRS.init true) = some (s, es) ∧
+    s.mon.busy = 0 ∧ s.loop = .send ∧ es = [.call .read, .b .read, .cancel, .ret false, .e .read] :=
+  ⟨_, _, rfl, by decide⟩
+
+/-- underlying_ops_exclusive is not vacuous: a long schedule with a cancelled call, a Close by the loop -/
+example : ∃ s es, FqModel.CtxRS.run .fixed [.call .read, .send, .opBegin, .opEnd, .recv, .ret, .call .close, .send, .opBegin,
+    .opEnd, .recv, .ret, .cancel, .lCancel, .lClBegin, .lClEnd, .call .seek, .cSel1Cancel, .ret] (FqModel.CtxRS.init true) = some (s, es) ∧
+    s.mon.closes = 2 ∧ s.loop = .exited :=
+  ⟨_, _, rfl, by decide⟩
+
+/-- cancel_returns_promptly: the hypotheses hold in a reachable state with the underlying Read in progress -/
+example : ∃ s es, FqModel.CtxRS.run .fixed [.call .read, .send, .opBegin, .cancel] (FqModel.CtxRS.init true) = some (s, es) ∧
+    s.cancelled = true ∧ s.caller = .sel2 ∧ s.loop = .inOp .read := ⟨_, _, rfl, by decide⟩
+
+end ctxreadseeker
 
 end Props.C20
